@@ -27,6 +27,7 @@ ALL21 = ["%d%d" % (a, b) for a in range(1, 7) for b in range(a, 7)]
 QUANT = ["bulk_modulus_voigt", "bulk_modulus_reuss", "bulk_modulus_voigt_reuss_hill",
          "shear_modulus_voigt", "shear_modulus_reuss", "shear_modulus_voigt_reuss_hill",
          "primary_velocities", "secondary_velocities"]
+COND_MAX = 1e5        # beyond this the 1e-9 checks of the LAPACK inverse are not meaningful in binary64
 GPA = 14710.507848260711                     # GPa per Ry/bohr^3 (harness-side scaling of inputs only)
 
 # ---------------------------------------------------------------------------------------------------
@@ -157,7 +158,7 @@ def is_spd(M):
     if not numpy.all(numpy.isfinite(M)):
         return False
     ev = numpy.linalg.eigvalsh((M + M.T) / 2)
-    return bool(ev.min() > 1e-6 * ev.max())
+    return bool(ev.min() > 1e-3 * ev.max())
 
 
 CLASSES = ["triclinic", "monoclinic", "orthorhombic", "tetragonal7", "tetragonal6", "trigonal7", "trigonal6",
@@ -260,8 +261,15 @@ def points_of(label, keys, table_of, out, comp, err, cellmass, v_array, nt, ntv,
             tbl = [(int(k[0]), int(k[1]), float(table_of(k)[it, iv])) for k in keys]
             sobs = [(int(k[0]), int(k[1]), float(comp[k][it, iv])) for k in ALL21 if comp[k] is not None]
             outs = [float(out[q][it, iv]) if out[q] is not None else float("nan") for q in QUANT]
+            C = numpy.zeros((6, 6))
+            for a, b, v in tbl:
+                C[a - 1, b - 1] = C[b - 1, a - 1] = v
+            ev = numpy.linalg.eigvalsh(C) if numpy.all(numpy.isfinite(C)) else numpy.array([float("nan")])
+            spd = bool(ev.min() > 0)
+            cond = float(abs(ev).max() / abs(ev).min()) if abs(ev).min() > 0 else float("inf")
             pts.append(dict(label=label, it=it, iv=iv, tbl=tbl, sobs=sobs, outs=outs, cellmass=float(cellmass),
-                            volume=float(v_array[iv]), err=dict(err)))
+                            volume=float(v_array[iv]), err=dict(err), spd=spd, cond=cond,
+                            wellcond=bool(cond < COND_MAX)))
     return pts
 
 
@@ -278,19 +286,20 @@ Definition ry_impl : float := %(ry)s.       (* units.Quantity(1, rydberg).to(kg 
 Definition na_impl : float := %(na)s.       (* scipy.constants Avogadro constant used by the implementation *)
 
 Definition tbl := list (Z * Z * float).
-(* (stiffness table in key order, published compliances, cell mass, volume, observed 8 outputs) *)
-Definition case := (tbl * tbl * float * float * list float)%%type.
+(* (stiffness table in key order, published compliances, cell mass, volume,
+    tolerance for |S.C - I| (1e-9; infinity when cond(C) >= 1e5), observed 8 outputs) *)
+Definition case := (tbl * tbl * float * float * float * list float)%%type.
 
 Definition close_or_nan (a b : float) : bool := (is_nan a && is_nan b) || close9 a b.
 Definition model_outs (c : case) : list float :=
-  let '(t, st, m, v, _) := c in
+  let '(t, st, m, v, _, _) := c in
   let C := assemble6 t in let S := assemble6 st in
   [bulk_voigt C; bulk_reuss S; bulk_vrh C S; shear_voigt C; shear_reuss S; shear_vrh C S;
    v_primary ry_impl m v C S; v_secondary ry_impl m v C S].
 Definition ok_q (q : nat) (c : case) : bool :=
   close_or_nan (nth q (model_outs c) nan) (nth q (snd c) nan).
 Definition ok_inv (c : case) : bool :=
-  let '(t, st, _, _, _) := c in inv_residual (assemble6 st) (assemble6 t) <=? 0x1.12e0be826d695p-30.
+  let '(t, st, _, _, tol, _) := c in inv_residual (assemble6 st) (assemble6 t) <=? tol.
 (* the model's own constants against what the implementation uses, and against CODATA *)
 Definition consts_ok : list bool :=
   [close 0x1p-50 0 (N_A (OF:=FOps)) na_impl; close9 ry_impl (ry_codata (OF:=FOps))].
@@ -317,8 +326,9 @@ def coq_tbl(t):
 
 
 def coq_case(p):
-    return "(%s,\n   %s,\n   %s, %s, [%s])" % (coq_tbl(p["tbl"]), coq_tbl(p["sobs"]), fhex(p["cellmass"]),
-                                                fhex(p["volume"]), "; ".join(fhex(x) for x in p["outs"]))
+    return "(%s,\n   %s,\n   %s, %s, %s, [%s])" % (
+        coq_tbl(p["tbl"]), coq_tbl(p["sobs"]), fhex(p["cellmass"]), fhex(p["volume"]),
+        fhex(1e-9) if p["wellcond"] else "infinity", "; ".join(fhex(x) for x in p["outs"]))
 
 
 # ---------------------------------------------------------------------------------------------------
@@ -388,7 +398,7 @@ def oracle_point(p, ry_impl, num=Fraction):
     """returns list of (key, what, expected, observed) for every clause of the property that fails at p"""
     bad = []
     C6 = sym6(p["tbl"], num)
-    if not pivots_positive(C6, num):
+    if not pivots_positive(C6, num) or not p.get("wellcond", True):
         return bad, False                       # property only speaks about positive definite stiffness
     S6 = inverse(C6, num)
     ciijj, cijij = contractions(full_tensor(C6, False, num))
@@ -538,6 +548,9 @@ def run(ctx):
         ctx.count("Calculator run")
         ctx.count("Calculator grid points", len(pts))
 
+    # -- 2b. edge cases: a compliance the VRH formulas need vanishes (exactly / numerically) --------------
+    points += probe_zero_compliance(ctx, CC)
+
     # -- 3. correspondence inside Coq -----------------------------------------------------------------
     hdr = SHARD_HEADER % dict(ry=fhex(ry_impl), na=fhex(na_impl))
     files = []
@@ -569,13 +582,12 @@ def run(ctx):
 
     spd_count = 0
     for i, p in enumerate(points):
-        C = numpy.zeros((6, 6))
-        for a, b, v in p["tbl"]:
-            C[a - 1, b - 1] = C[b - 1, a - 1] = v
-        p["spd"] = is_spd(C)
-        spd_count += p["spd"]
-        ctx.case(dict(tbl=p["tbl"], m=p["cellmass"], v=p["volume"]), nontrivial=p["spd"])
-    ctx.count("positive definite cases", spd_count)
+        good = p["spd"] and p["wellcond"]
+        spd_count += good
+        ctx.case(dict(tbl=p["tbl"], m=p["cellmass"], v=p["volume"]), nontrivial=good)
+    ctx.count("positive definite cases with cond < 1e5", spd_count)
+    ctx.count("cases outside the quantifier (not positive definite or cond >= 1e5; formulas still compared)",
+              len(points) - spd_count)
     for p in points[:2] + points[-1:]:
         ctx.sample(dict(case=p["label"], grid_point=[p["it"], p["iv"]],
                         stiffness_GPa={"c%d%d" % (a, b): round(v * GPA, 3) for a, b, v in p["tbl"]},
@@ -615,8 +627,6 @@ def run(ctx):
         ctx.failure("constant-" + k, "unit constant used by the implementation is not the CODATA/SI value",
                     input=k, expected=e, observed=o)
 
-    # -- 6. probe: a published compliance that is (numerically) zero is dropped ------------------------
-    probe_zero_compliance(ctx, CC)
 
 
 def run_stub(CC, label, keys, grid, cellmass, v_array, t_array, iso_scale):
@@ -637,29 +647,40 @@ def run_stub(CC, label, keys, grid, cellmass, v_array, t_array, iso_scale):
 
 
 def probe_zero_compliance(ctx, CC):
-    """positive definite orthotropic stiffness with c12 c33 = c13 c23, i.e. s12 = 0 exactly: the
-    compliance is dropped by the allclose(.., 0) filter and every Reuss/Hill/velocity property raises"""
-    vals = {"11": 5, "22": 5, "33": 4, "12": 1, "13": 2, "23": 2, "44": 1, "55": 1, "66": 1}
-    M = numpy.zeros((6, 6))
-    for k, v in vals.items():
-        a, b = int(k[0]), int(k[1])
-        M[a - 1, b - 1] = M[b - 1, a - 1] = v * 0.002
-    pts = run_stub(CC, "probe:c12*c33=c13*c23", list(vals), [[M]], 100.0, [200.0], [300.0], 0.9)
-    p = pts[0]
-    bad, spd = oracle_point(p, None, Fraction)
-    ctx.count("probe: exactly vanishing s12")
-    ctx.case(dict(probe="s12=0", tbl=p["tbl"]))
-    hit = [b for b in bad if b[0].startswith("bulk_modulus_reuss:")]
-    if hit:
-        key, what, e, o = hit[0]
-        ctx.failure("reuss-raises-when-s12-vanishes",
-                    "bulk_modulus_reuss (and Hill, velocities) raise AttributeError for a positive definite stiffness "
-                    "whose inverse has s12 = 0 (c12*c33 = c13*c23): _calculate_compliances drops compliances that "
-                    "are allclose to 0 and __getattr__ then rejects s12",
-                    input=dict(stiffness_Ry_per_bohr3={"c%d%d" % (a, b): v for a, b, v in p["tbl"]},
-                               key_order=["%d%d" % (a, b) for a, b, _ in p["tbl"]],
-                               cellmass_g_per_mol=p["cellmass"], volume_bohr3=p["volume"]),
-                    expected=e, observed=o)
-    else:
-        other = [b for b in bad]
-        report(ctx, p, other)
+    """positive definite orthotropic stiffness whose inverse has s12 = 0 (c12 c33 = c13 c23) or |s_ij| < 1e-8
+    off the diagonal: _calculate_compliances used to drop compliances that are allclose to 0, after which
+    every Reuss/Hill/velocity property raised AttributeError.  When the implementation does not raise, the
+    points are ordinary cases (returned; they go through the Coq shards and the oracle); when it raises, the
+    failure is reported under one stable key and the points are kept out of the shards."""
+    probes = [
+        ("probe:s12=0 exactly (c12*c33=c13*c23)",
+         {"11": 5, "22": 5, "33": 4, "12": 1, "13": 2, "23": 2, "44": 1, "55": 1, "66": 1}, 0.002),
+        ("probe:|s12|,|s13|,|s23|<1e-8 (weak coupling)",
+         {"11": 1, "22": 1.5, "33": 2, "12": 1e-11, "13": 2e-11, "23": 1e-11, "44": 0.5, "55": 0.6, "66": 0.7}, 0.02),
+    ]
+    regular = []
+    for label, vals, scale in probes:
+        M = numpy.zeros((6, 6))
+        for k, v in vals.items():
+            a, b = int(k[0]), int(k[1])
+            M[a - 1, b - 1] = M[b - 1, a - 1] = v * scale
+        pts = run_stub(CC, label, list(vals), [[M]], 100.0, [200.0], [300.0], 0.9)
+        p = pts[0]
+        ctx.count("edge case: vanishing off-diagonal compliance")
+        raised = [q for q in QUANT if p["err"].get(q) == "AttributeError"]
+        if raised:
+            bad, spd = oracle_point(p, None, Fraction)
+            e = [b[2] for b in bad if b[0].startswith("bulk_modulus_reuss:")]
+            ctx.case(dict(probe=label, tbl=p["tbl"]))
+            ctx.failure("reuss-raises-when-s12-vanishes",
+                        "bulk_modulus_reuss (and Hill, velocities) raise AttributeError for a positive definite "
+                        "stiffness whose inverse has a vanishing s12/s13/s23: _calculate_compliances drops "
+                        "compliances that are allclose to 0 and __getattr__ then rejects the name",
+                        input=dict(case=label, grid_point=[0, 0],
+                                   stiffness_Ry_per_bohr3={"c%d%d" % (a, b): v for a, b, v in p["tbl"]},
+                                   key_order=["%d%d" % (a, b) for a, b, _ in p["tbl"]],
+                                   cellmass_g_per_mol=p["cellmass"], volume_bohr3=p["volume"]),
+                        expected=dict(bulk_modulus_reuss=e[0] if e else None), observed="AttributeError in " + ", ".join(raised))
+        else:
+            regular += pts
+    return regular
